@@ -140,6 +140,24 @@ CLAIMS = {
             "ASCII/EBCDIC, blocked/unblocked, both forms, missing trailer, unconfigured table) are read by "
             "IpmParamReader and mci_ipm_param_to_csv and TLC decides every returned row set.",
             TB + "The csv module parses what csv.DictWriter wrote.", "3 C18"),
+    'C19': ("TLA+ specification of a conversion as a composition (Reading_A' ; Layout_B ; writer file; per-record "
+            "re-encoding for parameter files) evaluated by TLC on the real tools' input and output files; observed "
+            "readings and the return conversion compared",
+            "All 9 ordered pairs of {latin_1, cp500, cp037} x {vbs,1014}^2 through mci_ipm_encode and "
+            "mci_ipm_param_encode (function and cli_run on real files), the fixed pairs of mideu convert and paramconv: "
+            "TLC decides that the input reads as Reading_A', that the output file is the writer file of Layout_B of those "
+            "dictionaries (resp. of the re-encoded records) and reads back as Reading_B; the harness compares the two "
+            "observed dictionary lists under the standard configuration and the bytes of the return conversion.",
+            TB + "For mideu convert only library-packed PDS is generated (hand-made carrier strings are re-packed by "
+            "design). File contents are seeded samples.", "3 C19"),
+    'C20': ("TLA+ specification of the pipeline (row -> dict -> Layout -> writer file; output table equality on supplied "
+            "columns) evaluated by TLC on the real tools' intermediate IPM file and output CSV",
+            "Tables of 1..200 rows over all 35 configured MTI/DE/PDS output columns (typed numbers, ISO date-times, "
+            "fixed and variable text with commas, quotes, spaces, boundary lengths, DE48 only without PDS columns) go "
+            "through mci_csv_to_ipm and mci_ipm_to_csv as functions and via cli_run on real files, blocked/unblocked, "
+            "latin_1/cp500; TLC decides that the IPM file is the writer file of Layout(dict(row)) and that every "
+            "supplied cell comes back unchanged in the same row order.",
+            TB + "CSV quoting is the csv module's on both sides; dateutil parses YYYY-MM-DD hh:mm:ss.", "3 C20"),
 }
 
 PENDING = "check not built yet in this round (specification under construction; see DESIGN.md section 3)"
